@@ -251,6 +251,8 @@ def oracle_c14(ctx, desc, f0, spec, src, out, m, label, factor, case):
     if RI is not None:
         if maps is not None:
             exp = np.concatenate([np.asarray(x, dtype=np.int64) for x in maps])
+            if spec.notes.get('rawind_expected') is not None:
+                exp = np.asarray(spec.notes['rawind_expected'], dtype=np.int64)
             dd = same(RI, exp, dtype=False)
             if dd:
                 V('raw_channel_indices', 'channels.rawInd does not give each probe its original channel map: %s (%d probes)' % (
